@@ -23,6 +23,9 @@ M = [
     ("C01-no-clip", "C01", "cnvlib/call.py", 'return df["absolute"].clip(lower=0)', 'return df["absolute"]'),
     ("C01-floor", "C01", "cnvlib/call.py", 'outarr["cn"] = absolutes.round().astype("int")', 'outarr["cn"] = np.floor(absolutes).astype("int")'),
     ("C01-expect-y-female", "C01", "cnvlib/call.py", '"expect"] = 0 if is_sample_female else ploidy // 2', '"expect"] = ploidy // 2'),
+    ("C01-cli-purity-dropped", "C01", "cnvlib/commands.py", "        args.ploidy,\n        args.purity,\n        args.male_reference,\n        is_sample_female,", "        args.ploidy,\n        None,\n        args.male_reference,\n        is_sample_female,"),
+    ("C01-cli-sex-swapped", "C01", "cnvlib/commands.py", "        args.male_reference,\n        is_sample_female,\n        args.diploid_parx_genome,\n        args.filters,", "        is_sample_female,\n        args.male_reference,\n        args.diploid_parx_genome,\n        args.filters,"),
+    ("C01-cli-center-at-sign", "C01", "cnvlib/commands.py", 'cnarr["log2"] -= args.center_at', 'cnarr["log2"] += args.center_at'),
     # ---- C02
     ("C02-lt", "C02", "cnvlib/call.py", "if row.log2 <= thresh:", "if row.log2 < thresh:"),
     ("C02-round-haploid", "C02", "cnvlib/call.py", "cnum = int(cnum * ref_copies / ploidy)", "cnum = int(round(cnum * ref_copies / ploidy))"),
@@ -31,6 +34,9 @@ M = [
     ("C02-nan-zero", "C02", "cnvlib/call.py", "            absolutes[idx] = ref_copies\n            continue", "            absolutes[idx] = 0\n            continue"),
     ("C02-no-clip-cn1", "C02", "cnvlib/call.py", '(absolutes * upper_baf).round().clip(0, outarr["cn"]).astype("int")', '(absolutes * upper_baf).round().astype("int")'),
     ("C02-isnull-or", "C02", "cnvlib/call.py", 'is_null = outarr["baf"].isnull() & (outarr["cn"] > 0)', 'is_null = outarr["baf"].isnull() | (outarr["cn"] > 0)'),
+    ("C02-cli-thresholds-dropped", "C02", "cnvlib/commands.py", "        args.filters,\n        args.thresholds,\n    )", "        args.filters,\n    )"),
+    ("C02-cli-filters-sorted", "C02", "cnvlib/commands.py", "        args.diploid_parx_genome,\n        args.filters,\n        args.thresholds,", "        args.diploid_parx_genome,\n        sorted(args.filters),\n        args.thresholds,"),
+    ("C02-cli-male-ref-dropped", "C02", "cnvlib/commands.py", "        args.purity,\n        args.male_reference,\n        is_sample_female,", "        args.purity,\n        False,\n        is_sample_female,"),
     # ---- C06
     ("C06-merge-abutting", "C06", "skgenome/merge.py", "group_keys = np.r_[False, gap_sizes > (-bp)].cumsum()", "group_keys = np.r_[False, gap_sizes >= (-bp)].cumsum()"),
     ("C06-merge-no-cummax", "C06", "skgenome/merge.py", "    gap_sizes = table.start.values[1:] - table.end.cummax().values[:-1]\n    group_keys",
